@@ -6,6 +6,7 @@ import Biogo.Spec.FeatIO
 import Biogo.Proofs.FeatBedRound
 import Biogo.Proofs.FeatGffRound
 import Biogo.Proofs.FeatSeqRound
+import Biogo.Proofs.FastaPrefix
 
 namespace Biogo.Properties.C02
 open Biogo.BytesFeat Biogo.Gff Biogo.FeatIO
@@ -181,6 +182,35 @@ theorem inline_seq_roundtrip (o : Oracles) (width m : Nat) (hm : m ≤ 2) (id de
       (readAll o ((if hdr then headerText else []) ++ text)).1 = [.item (.sequence id m letters), .eof] := by
   obtain ⟨t, hw, hr⟩ := readAll_seq o width m hm id desc letters hdr hid hd hl hend
   exact ⟨t, t.length, hw, rfl, hr⟩
+
+/-- **The inline-sequence writer is the FASTA writer with user-set prefixes.**  `gff.Writer.Write`
+    hands a sequence to a `fasta.Writer` whose `IDPrefix` is `"##<Mol> "` and `SeqPrefix` `"##"`
+    (`seqCfg m`) and appends `##end-<Mol>`: the text and count of the GFF model's `writeSeq` are
+    the output and count of the FASTA writer model of C01 (`Biogo.Fasta.write`) with these
+    prefixes, plus the marker — for every width ≥ 1, molecule type and non-empty sequence. -/
+theorem inline_seq_writer_is_fasta (width m : Nat) (hw : width ≠ 0) (hm : m ≤ 2) (id desc letters : Bytes)
+    (hl : letters ≠ []) :
+    ∃ sink' n, Biogo.Fasta.write { cfg := seqCfg m, width := width } {} ⟨id, desc, letters⟩ = .ok (sink', n) ∧
+      writeSeq width m id desc letters = .ok (sink'.bytes ++ endLine m, n + (endLine m).length) :=
+  writeSeq_via_fasta width m hw hm id desc letters hl
+
+/-- `inline_seq_roundtrip` stated through the FASTA writer model: what `Biogo.Fasta.write` emits
+    with the GFF prefixes, followed by the end marker, is read back by the GFF reader as the
+    sequence (name and letters), then `io.EOF`; the two counts add up to the bytes emitted. -/
+theorem inline_seq_roundtrip_via_fasta (o : Oracles) (width m : Nat) (hw : width ≠ 0) (hm : m ≤ 2)
+    (id desc letters : Bytes) (hdr : Bool) (hne : letters ≠ [])
+    (hid : nameOK id = true) (hd : descOK desc = true) (hl : lettersOK letters = true)
+    (hend : noEndMarker width m letters = true) :
+    ∃ sink' n, Biogo.Fasta.write { cfg := seqCfg m, width := width } {} ⟨id, desc, letters⟩ = .ok (sink', n) ∧
+      n + (endLine m).length = (sink'.bytes ++ endLine m).length ∧
+      (readAll o ((if hdr then headerText else []) ++ (sink'.bytes ++ endLine m))).1
+        = [.item (.sequence id m letters), .eof] := by
+  obtain ⟨sink', n, h1, h2⟩ := writeSeq_via_fasta width m hw hm id desc letters hne
+  obtain ⟨text, n', h3, h4, h5⟩ := inline_seq_roundtrip o width m hm id desc letters hdr hid hd hl hend
+  rw [h2] at h3
+  simp only [Except.ok.injEq, Prod.mk.injEq] at h3
+  obtain ⟨rfl, rfl⟩ := h3
+  exact ⟨sink', n, h1, h4, h5⟩
 
 /-- "reported byte counts equal bytes emitted", region and inline-sequence writers (every outcome) -/
 theorem region_write_count (name : Bytes) (s e : Int) (text : Bytes) (n : Nat)
